@@ -361,6 +361,8 @@ class History:
         qs.append({"ibc_queue": {"start_after": r.choice([None, 0] + seqs), "limit": r.choice([None, 0, 1, 2, 10])}})
         qs.append({"ibc_reply_queue": {"start_after": None, "limit": r.choice([None, 1])}})
         qs.append({"unstake_requests": {"user": r.choice(self._users())}})
+        qs.append({r.choice(["all_unstake_requests", "all_unstake_requests_v2"]):
+                   {"start_after": r.choice([None, 0, 1, nb]), "limit": r.choice([None, 0, 1, 2, 5, 2 ** 32 - 1])}})
         for q in qs:
             a = self.h.call({"op": "query", "msg": q})
             self.stats.calls += 1
